@@ -65,6 +65,13 @@ CHECKS = {
               "references from the declaring package are never candidates; per file ignore-first, PKGO01 once per (package,type), PKGO02/03 each (same dedup theorem as C03). Same correspondence as C01."),
         note="Fragment: non-generic defined types, direct imports, one candidate per line; go/parser + go/types facts are inputs serialised verbatim by `ggx skel`; well-formedness (no FuncDecl nested in a declaration) evaluated by the model on every serialised package. Dot-imports, fields of @packageonly structs and promoted methods are left unspecified (DESIGN 5.1).",
         technique="Coq proof (union/denied characterisation, dedup theorem) + model/implementation correspondence"),
+    "C15": dict(
+        text=("Obligations (Coq, by computation on the seven regex syntax trees regenerated from the source with Go's own regexp/syntax): all classes within ASCII, nothing untranslated. "
+              "The parsers (regex + split/trim/upper post-processing) and the reader's attachment rules are the executable model run against the real readers: exhaustive token sequences per "
+              "keyword at its attachment site, every argument shape at every site incl. the inert placements, two-keyword lines, fuzz; and Go's regexp vs the library model on arbitrary bytes "
+              "with submatch indices. [theorems about the matcher's language are being added; see DESIGN 5 (C15)]"),
+        note="Comment strings that can occur in a Go source file (valid UTF-8, one line) at the API level; arbitrary bytes at the regex level. Go's regexp is a library model (Regex.v).",
+        technique="Coq obligations over the regenerated regex ASTs + exhaustive bounded and fuzzed reader/regex correspondence"),
 }
 
 PENDING_REASON = "check under construction in this round (designed in DESIGN.md section 5); not yet claimed"
